@@ -58,7 +58,11 @@ class SimEndpoint:
         self.net.attempts.append(a)
         if self.net.on_attempt is not None:
             self.net.on_attempt(a)
-        if (self.host, self.port) in self.net.sync_refuse:
+        if (self.host, self.port) in self.net.sync_accept:
+            # an endpoint that connects before connect() returns (in-memory transports; maybeDeferred in the broker client
+            # exists to allow exactly this)
+            a.establish()
+        elif (self.host, self.port) in self.net.sync_refuse:
             # an endpoint whose connect() fails before returning (e.g. HostnameEndpoint with an invalid host name)
             a.refuse()
         return a.d
@@ -143,6 +147,7 @@ class SimNet:
         self.attempts = []
         self.transports = []
         self.on_attempt = None
+        self.sync_accept = set()  # (host, port) whose connect() returns an already-connected protocol
         self.sync_refuse = set()  # (host, port) whose connect() returns an already-failed Deferred
         self.on_write = None
 
